@@ -190,5 +190,10 @@ _RUN_NOTES = ["A-user / A-hook: user step functions and hooks behave per the out
               "formatter calls are summarised as broadcast events after a structural check of each emission loop (A-fmt)"]
 prop("C02", level="proof", bounded=[],
      explanation="Step.run proved: outcome->status mapping for every outcome of the alphabet, step function called exactly "
-                 "once (never after a failing before_step hook, never for an undefined step), keep_going iff not failed",
+                 "once (never after a failing before_step hook, never for an undefined step), keep_going iff not failed; "
+                 "Scenario.run: no step function once a step did not pass, none in dry-run, remaining steps skipped/undefined; "
+                 "the step sequence itself: per-scenario untested copies of the inherited background steps (feature background, "
+                 "then rule background) followed by the scenario's own steps (copy/reset helpers, Scenario.background_steps, "
+                 "Background.inherited_steps/iter_steps/all_steps, Scenario.iter_steps); a failing type conversion yields a "
+                 "MatchWithError whose run() raises (Matcher.match)",
      notes=_RUN_NOTES)
